@@ -6,6 +6,8 @@ b  the coupling flow is a symplectic rotation, M(delta) M(-delta) = I
 c  composition: order-2 palindrome A B C B A; triple-jump palindromes with the order condition
    2 g^(p+1) + (1-2g)^(p+1) = 0 at every recursion level reached from each public order key
 d  driver: extended state initialised with copies, output = (Q,P) block, signed dt, omega>0; gradient slots
+
+d-storage / d-event-driver  gradient blocks are stored unchanged (C17.b); the event driver carries the extended state (C11.b)
 """
 from __future__ import annotations
 
